@@ -289,12 +289,76 @@ def r03e(ctx):
             ctx.report("R03e", f, f.node, "header/encoding", f"{qual}: the declared encoding and the bytes encoding no longer agree on UTF-8")
 
 
+def r03f(ctx):
+    """The location that is cleaned (moved to a backup or removed) is the location that is written.
+
+    `_save_folder` only adds files, so whatever the target folder already holds and is not
+    overwritten is read back as a part on reopening: a part the document never had.  The
+    wrappers `_save_as_*` clean the target first.  Obligations, per wrapper: (1) the name
+    handed to the cleaner and the name handed to the writer are the same value — no
+    definition of that local lies on a path from the cleaner call to the writer call
+    (definitions on CFG paths between the two calls); (2) for the folder packaging the cleaner call
+    dominates the writer call.
+    """
+    from ..paths import _own_stores
+    repo = ctx.repo
+    ctx.rule("R03f", "the save wrappers clean (backup/unlink) exactly the location they then write; the folder writer always starts from a cleaned location", floor=3)
+    c = repo.cls("Container")
+    WRITERS = {"_save_zip", "_save_folder", "_save_xml"}
+    CLEANERS = {"_backup_or_unlink", "_do_backup", "_do_unlink"}
+    n_inst = 0
+    for name, fs in c.methods.items():
+        f = fs[0]
+        if name in WRITERS or name in CLEANERS:
+            continue
+        ws = calls(f, lambda x: call_name(x) in WRITERS)
+        if not ws:
+            continue
+        cfg = cfg_of(f)
+        cs = calls(f, lambda x: call_name(x) in CLEANERS)
+        for w in ws:
+            wn = node_of(cfg, w)
+            wt = [a for a in w.args if isinstance(a, ast.Name)]
+            if call_name(w) == "_save_folder":
+                n_inst += 1
+                dom = [k for k in cs if cfg.dominates(node_of(cfg, k), wn)]
+                ok = bool(dom)
+                ctx.instance("R03f", f"{f.file}:{f.ident}", f"{norm(w, 40)} is dominated by a cleaner call ({[norm(k, 40) for k in dom]})", ok=ok, nontrivial=True, line=w.lineno)
+                if not ok:
+                    ctx.report("R03f", f, w, f"{norm(w, 40)} not preceded by backup/unlink on every path",
+                               "the folder writer only adds files: without cleaning the target first, files left by an earlier save are read back as parts the document never had")
+            for k in cs:
+                kn = node_of(cfg, k)
+                kt = [a for a in k.args if isinstance(a, ast.Name) and a.id != "backup"]
+                if not kt or not wt:
+                    continue
+                if wn.id not in cfg.reach_from(kn):
+                    continue
+                n_inst += 1
+                var = kt[-1].id
+                same_var = any(a.id == var for a in wt)
+                between = []
+                if same_var:
+                    after = cfg.reach_from(kn)
+                    between = [d for d in cfg.nodes if d.id in after and d is not wn and _own_stores(d, var) and wn.id in cfg.reach_from(d)]
+                ok = same_var and not between
+                ctx.instance("R03f", f"{f.file}:{f.ident}", f"{norm(k, 40)} and {norm(w, 40)} receive the same value of `{var}`", ok=ok, nontrivial=True, line=k.lineno)
+                if not ok:
+                    what = f"`{var}` is redefined at line {between[0].stmt.lineno} ({norm(between[0].stmt, 40)}) between them" if between else f"the writer does not receive `{var}`"
+                    ctx.report("R03f", f, k, f"{norm(k, 40)} cleans another location than {norm(w, 40)} writes: {what}",
+                               f"{f.ident} cleans one location and writes another: the existing output is not cleared (stale files become parts on reopening) "
+                               f"and an unrelated path is moved or removed")
+    if n_inst == 0:
+        raise AnalysisError("R03f: no save wrapper with a cleaner and a writer found in Container")
+
+
 def run(ctx):
     r03a(ctx)
     r03b(ctx)
     r03c(ctx)
     r03d(ctx)
     r03e(ctx)
+    r03f(ctx)
 
 
 from ..selftest import Seed, unparse_seed  # noqa: E402
@@ -302,6 +366,17 @@ from ..selftest import Seed, unparse_seed  # noqa: E402
 _CT = "src/odfdo/container.py"
 _DOC = "src/odfdo/document.py"
 SEEDS = [
+    Seed("folder save cleans the name without the .folder suffix", "fault", _CT,
+         '        if not str(target).endswith(".folder"):\n            target = str(target) + ".folder"\n        self._backup_or_unlink(backup, target)\n',
+         '        self._backup_or_unlink(backup, target)\n        if not str(target).endswith(".folder"):\n            target = str(target) + ".folder"\n', "R03f"),
+    Seed("folder save cleans only when a backup is asked for", "fault", _CT,
+         '        self._backup_or_unlink(backup, target)\n        self._save_folder(target)', '        if backup:\n            self._do_backup(target)\n        self._save_folder(target)', "R03f"),
+    Seed("xml save backs up the name without the .xml suffix", "fault", _CT,
+         '            if not str(target).endswith(".xml"):\n                target = str(target) + ".xml"\n            if backup:\n                self._do_backup(target)\n',
+         '            if backup:\n                self._do_backup(target)\n            if not str(target).endswith(".xml"):\n                target = str(target) + ".xml"\n', "R03f"),
+    Seed("folder save names the suffixed target separately", "neutral", _CT,
+         '        if not str(target).endswith(".folder"):\n            target = str(target) + ".folder"\n        self._backup_or_unlink(backup, target)\n        self._save_folder(target)',
+         '        folder = str(target)\n        if not folder.endswith(".folder"):\n            folder = folder + ".folder"\n        self._backup_or_unlink(backup, folder)\n        self._save_folder(folder)'),
     Seed("Container.save loses the pre-load loop", "fault", _CT,
          "        for path in self.parts:\n            if path not in parts:\n                self.get_part(path)\n", "", "R03a"),
     Seed("pre-load only XML parts", "fault", _CT,
